@@ -15,7 +15,9 @@ RULE = ("three monitors on scratch directory trees: (contain) random layouts - a
         "foreach_collect and the Text/Raw providers directly under HostContext and the archive contexts; (deny) real host "
         "collection of a generated SpecSet with all nine declarative kinds under an audit hook with generated deny lists "
         "(exact hits, near misses, symbolic names, component names); (write) Hydration persistence with save_as variants "
-        "and '..' paths, tree snapshot + audit events; one evaluation = one probe / one collection run; non-trivial = the "
+        "and '..' paths, collected paths that are symlinks (raw and text kinds), commands with shell quoting (the executed argv is "
+        "mapped back to the command line as the spec writes it before deny entries are matched), tree snapshot + audit events + "
+        "byte comparison of every source file before/after; one evaluation = one probe / one collection run; non-trivial = the "
         "probe involves a symlink, a '..' segment or a prefix-sharing sibling (contain), the deny list has a hit and a "
         "near miss (deny), a save_as or '..' path (write); distinct by hash of the case")
 ASSUMPTIONS = [
